@@ -13,6 +13,7 @@ C13 (EpochSamplers.tla): how class-balanced / semi-supervised / weighted sampler
     rejected (selftest against vacuity).
 """
 import copy
+import os
 import random
 import signal
 from concurrent.futures import ThreadPoolExecutor
@@ -143,6 +144,89 @@ def observe(c, schedule, with_g1):
     return ev
 
 
+def _pg_child(conn, c, schedule, rank, store_path, preview):
+    """one rank of a REAL torch.distributed process group (gloo, file store): the samplers are built with their
+    default rank / world size, i.e. through kappadata.utils.distributed"""
+    import datetime
+    import torch
+    import torch.distributed as dist
+    torch.set_num_threads(1)
+    out = []
+    try:
+        if preview:
+            # legal single-process use before the group exists (e.g. a preview / length computation): rank 0 of 1
+            o = build(c, None, None)
+            if c["sampler"] != "rand":
+                o.set_epoch(0)
+            list(o)
+        dist.init_process_group("gloo", store=dist.FileStore(store_path, c["W"]), rank=rank, world_size=c["W"],
+                                timeout=datetime.timedelta(seconds=60))
+        obj = None
+        for (e, fresh) in schedule:
+            if fresh is True or obj is None:
+                obj = build(c, None, None)
+            if fresh != "again" and c["sampler"] != "rand":
+                obj.set_epoch(e)
+            if fresh == "extra0" and rank == 0:
+                list(obj)
+            out.append((int(len(obj)), [int(i) for i in obj]))
+        dist.barrier()
+        dist.destroy_process_group()
+        conn.send(("ok", out))
+    except BaseException as ex:  # noqa
+        conn.send(("exc", type(ex).__name__ + ": " + str(ex)[:160]))
+    finally:
+        conn.close()
+        os._exit(0)
+
+
+def observe_pg(c, schedule, with_g1, preview, deadline=90):
+    """observe() with every rank running in its own process of a real process group"""
+    import multiprocessing as mp
+    import tempfile
+    ctx = mp.get_context("fork")
+    tmp = tempfile.mkdtemp(prefix="pg", dir=tlc.WORK)
+    procs = []
+    try:
+        for rank in range(c["W"]):
+            a, b = ctx.Pipe()
+            p = ctx.Process(target=_pg_child, args=(b, c, schedule, rank, os.path.join(tmp, "store"), preview), daemon=True)
+            p.start()
+            b.close()
+            procs.append((p, a))
+        res = []
+        for p, a in procs:
+            if a.poll(deadline):
+                try:
+                    res.append(a.recv())
+                except EOFError:
+                    res.append(("exc", "rank process died"))
+            else:
+                res.append(("exc", "Diverge"))
+        for p, a in procs:
+            p.join(timeout=2)
+            if p.is_alive():
+                p.kill()
+    finally:
+        import shutil
+        shutil.rmtree(tmp, ignore_errors=True)
+    bad = [x[1] for x in res if x[0] != "ok"]
+    if bad:
+        return [dict(a="exc", what=bad[0])]
+    single = build(c, 0, 1) if with_g1 else None
+    ev = []
+    for k, (e, fresh) in enumerate(schedule):
+        d = dict(a="epoch", e=e, lens=[x[1][k][0] for x in res], streams=[x[1][k][1] for x in res])
+        if with_g1:
+            if fresh is True and k > 0:
+                single = build(c, 0, 1)
+            if fresh != "again" and c["sampler"] != "rand":
+                single.set_epoch(e)
+            d["g1"] = [int(i) for i in single]
+        ev.append(d)
+    return ev
+
+
 def schedule_for(r, sampler, n_epochs=5):
     if sampler == "rand":
         return [(0, True), (0, True)]
@@ -249,7 +333,7 @@ def c12_key(c):
                 f"container={c['container']}")
     else:
         body = f"N={c['n']},size={c['size']},W={c['W']},zeros={sum(1 for x in c['weights'] if x == 0)}"
-    return f"{s}:{body},seed={c['seed']}"
+    return f"{s}:{body},seed={c['seed']}" + (f",procgroup={c['pg']}" if c.get("pg") else "")
 
 
 def c12_nontrivial(c, sc):
@@ -328,7 +412,7 @@ def c13_key(c):
                 f"container={c['container']}")
     else:
         body = f"N={c['n']},size={c['size']},W={c['W']},zeros={sum(1 for x in c['weights'] if x == 0)}"
-    return f"{s}:{body},seed={c['seed']}"
+    return f"{s}:{body},seed={c['seed']}" + (f",procgroup={c['pg']}" if c.get("pg") else "")
 
 
 def c13_nontrivial(c):
@@ -526,10 +610,21 @@ def run(prop, tier, seed):
         cfgs += [c13_random(r, big=(i % 2 == 0)) for i in range(n_rand)]
         spec_cfg, key_of, with_g1 = c13_spec_cfg, c13_key, False
     traces, meta = [], {}
+    # a few configurations run as REAL process groups (every rank its own process, default rank / world size)
+    n_pg = (10 if quick else 60)
+    pg_ids = set()
+    cand = [i for i, c in enumerate(cfgs) if c["sampler"] != "rand" and 2 <= c["W"] <= 3]
+    r.shuffle(cand)
+    pg_ids = set(cand[:n_pg])
     for i, c in enumerate(cfgs):
         c["seed"] = r.randint(0, 5000)
         sched = schedule_for(r, c["sampler"], n_epochs=(4 if quick else 5))
-        ev = observe(c, sched, with_g1)
+        if i in pg_ids:
+            # torch's own DistributedSampler refuses default ranks before the group exists: no preview there
+            c["pg"] = "preview" if (len(traces) % 2 == 0 and c["sampler"] != "dist") else "plain"
+            ev = observe_pg(c, sched, with_g1, preview=(c["pg"] == "preview"))
+        else:
+            ev = observe(c, sched, with_g1)
         t = dict(id=i + 1, cfg=spec_cfg(c), ev=ev)
         traces.append(t)
         meta[i + 1] = c
